@@ -180,22 +180,35 @@ Qed.
 
 (* ================= B. event codec ================= *)
 
-(* Reading back a stored event gives the event that was stored, for every event shape the
-   schema allows (nested argument trees of any depth, unlogged argument, creates/updates with
-   emptied fields, synced events, invalid and corrupted events), and the decoder consumes exactly
-   the encoding.  stored_form e = e except that the activation flags of CUD rows
-   (ICUDRow.IsActivated/IsDeactivated) are not kept. *)
+(* Reading back a stored event gives its stored form, for every event shape the schema allows
+   (nested argument trees of any depth, unlogged argument, creates/updates with emptied fields,
+   synced events, invalid and corrupted events with error texts of any length and whatever the
+   builder left in their argument objects), and the decoder consumes exactly the encoding.
+   stored_form e = e except that
+   - the activation flags of CUD rows (ICUDRow.IsActivated/IsDeactivated) are not kept (C02-F3);
+   - of an event that is not valid only the error record is kept: argument objects and CUD rows
+     are dropped (C02-F4), message and original name are cut to 65535 bytes (C02-F6), the original
+     bytes are dropped when the command has an unlogged argument (documented behaviour). *)
 Theorem decode_encode :
   forall s e, wf_event s e -> decode s (enc_event e) = Some (stored_form e).
 Proof. exact decode_encode_proved. Qed.
 
-(* FULL STATEMENT (refuted): forall s e, wf_event s e -> decode s (enc_event e) = Some e *)
+(* FULL STATEMENT (refuted three ways): forall s e, wf_event s e -> decode s (enc_event e) = Some e *)
 Theorem codec_roundtrip_refuted :
   exists s e, wf_event s e /\ decode s (enc_event e) <> Some e.
 Proof. exact codec_roundtrip_refuted_proved. Qed.
 
+Theorem codec_roundtrip_error_arguments_refuted :
+  exists s e, wf_event s e /\ no_actmod e /\ decode s (enc_event e) <> Some e.
+Proof. exact error_args_refuted_proved. Qed.
+
+Theorem codec_roundtrip_long_error_text_refuted :
+  exists s e, wf_event s e /\ no_actmod e /\ e_arg e = null_obj /\ e_creates e = [] /\ decode s (enc_event e) <> Some e.
+Proof. exact long_error_refuted_proved. Qed.
+
+(* the hypotheses are exactly what excludes the three witnesses *)
 Theorem codec_roundtrip_partial :
-  forall s e, wf_event s e -> no_actmod e -> decode s (enc_event e) = Some e.
+  forall s e, wf_event s e -> no_actmod e -> bare_error e -> decode s (enc_event e) = Some e.
 Proof. exact codec_roundtrip_partial_proved. Qed.
 
 (* A truncated copy of a stored event is rejected, whatever the schema: every proper prefix of
@@ -263,6 +276,8 @@ Print Assumptions read_log_boundary_refuted.
 Print Assumptions read_log_gap_refuted.
 Print Assumptions decode_encode.
 Print Assumptions codec_roundtrip_refuted.
+Print Assumptions codec_roundtrip_error_arguments_refuted.
+Print Assumptions codec_roundtrip_long_error_text_refuted.
 Print Assumptions codec_roundtrip_partial.
 Print Assumptions truncated_event_rejected.
 Print Assumptions decoder_ignores_what_follows.
